@@ -426,7 +426,6 @@ theorem reprCol_wf (naRep u : Str) (vals : List Val) (i : Nat) (h : ∀ v ∈ va
   | cons v vs ih =>
     simp only [reprCol, List.map_cons, readCell]
     rw [represent_wf naRep u i v (h v (by simp)), ih (i + 1) (fun w hw => h w (List.mem_cons_of_mem _ hw))]
-    rfl
 
 theorem reprRow_length (naRep : Str) (i j : Nat) (cols : List Column) : (reprRow naRep i j cols).length = cols.length := by
   induction cols generalizing j with
@@ -562,5 +561,679 @@ theorem parseColumnNames_padded (names : List Str) (k : Nat)
   cases k with
   | zero => simpa [hs] using this.2
   | succ n => simpa [hs, List.replicate_succ] using this.1
+
+/-! ## E. the fixer has nothing to do -/
+
+theorem distinct_cons (x : Str) (xs : List Str) (h : distinct (x :: xs) = true) : x ∉ xs ∧ distinct xs = true := by
+  simp only [distinct, Bool.and_eq_true, Bool.not_eq_true'] at h
+  refine ⟨?_, h.2⟩
+  intro hm
+  have : xs.contains x = true := by simpa using hm
+  rw [this] at h; exact absurd h.1 (by decide)
+
+theorem foldl_dupStep_distinct (ps : List (Str × Nat)) (acc : List Str) (f : Fixer)
+    (h1 : ∀ p ∈ ps, p.1 ∉ acc) (h2 : distinct (ps.map (·.1)) = true) :
+    ps.foldl dupStep (acc, f) = (acc ++ ps.map (·.1), f) := by
+  induction ps generalizing acc with
+  | nil => simp
+  | cons p ps ih =>
+    have hp : acc.contains p.1 = false := by simpa using h1 p (by simp)
+    have hstep : dupStep (acc, f) p = (acc ++ [p.1], f) := by
+      unfold dupStep; simp only [hp, Bool.not_false, if_true]
+    have hd := distinct_cons p.1 (ps.map (·.1)) (by simpa using h2)
+    simp only [List.foldl_cons, hstep]
+    rw [ih (acc ++ [p.1]) ?_ hd.2]
+    · simp
+    · intro q hq
+      simp only [List.mem_append, List.mem_singleton, not_or]
+      refine ⟨h1 q (List.mem_cons_of_mem _ hq), ?_⟩
+      intro e
+      exact hd.1 (e ▸ List.mem_map_of_mem (f := (·.1)) hq)
+
+theorem fixDuplicates_distinct (names : List Str) (f : Fixer) (h : distinct names = true) :
+    fixDuplicates names f = (names, f) := by
+  unfold fixDuplicates
+  rw [foldl_dupStep_distinct names.zipIdx [] f (by simp) (by rw [C02.map_fst_zipIdx]; exact h),
+    C02.map_fst_zipIdx]
+  simp
+
+theorem foldl_shortStep_full (n : Nat) (ps : List (Row × Nat)) (acc : List Row) (f : Fixer)
+    (h : ∀ p ∈ ps, n ≤ p.1.length) :
+    ps.foldl (shortStep n) (acc, f) = (acc ++ ps.map (·.1), f) := by
+  induction ps generalizing acc with
+  | nil => simp
+  | cons p ps ih =>
+    have hp : ¬ p.1.length < n := by have := h p (by simp); omega
+    have hstep : shortStep n (acc, f) p = (acc ++ [p.1], f) := by
+      unfold shortStep; simp only [hp, if_false]
+    simp only [List.foldl_cons, hstep]
+    rw [ih (acc ++ [p.1]) (fun q hq => h q (List.mem_cons_of_mem _ hq))]
+    simp
+
+theorem fixShortRows_full (rows : List Row) (n : Nat) (f : Fixer) (h : ∀ r ∈ rows, n ≤ r.length) :
+    fixShortRows rows n f = (rows, f) := by
+  unfold fixShortRows
+  rw [foldl_shortStep_full n rows.zipIdx [] f ?_, C02.map_fst_zipIdx]
+  · simp
+  · intro p hp
+    have : p.1 ∈ (rows.zipIdx).map (·.1) := List.mem_map_of_mem (f := (·.1)) hp
+    rw [C02.map_fst_zipIdx] at this
+    exact h _ this
+
+/-! ## F. one table -/
+
+/-- the table read back, in the form the reader model delivers it (`raw` columns when there are no rows) -/
+def expected (t : TableVal) : Precursor :=
+  ⟨t.name, t.transposed, t.destinations, t.columns.map (·.name), t.columns.map (·.unit),
+   if t.nRows = 0 then List.replicate t.columns.length .raw else t.columns.map colVals⟩
+
+theorem columnOK_facts (m : Nat) (c : Column) (h : columnOK m c = true) :
+    textOK c.name = true ∧ strip c.name = c.name ∧ textOK c.unit = true ∧ strip c.unit = c.unit ∧
+    c.values.length = m ∧ ∀ v ∈ c.values, valOK c.unit v = true := by
+  simp only [columnOK, Bool.and_eq_true, beq_iff_eq, List.all_eq_true] at h
+  obtain ⟨⟨⟨⟨⟨h1, h2⟩, h3⟩, h4⟩, h5⟩, h6⟩ := h
+  exact ⟨h1, h2, h3, h4, h5, h6⟩
+
+theorem parseColumns_nil (ext : Ext) (units : List Str) (f : Fixer) :
+    parseColumns ext units [] f = .ok ([], f) := by
+  cases units <;> rfl
+
+theorem transposeN_length (rows : List Row) (n : Nat) : (transposeN rows n).length = n := by
+  simp [transposeN]
+
+theorem finish_wf (ext : Ext) (naRep : Str) (hna : naRepOK naRep = true) (t : TableVal) (f : Fixer)
+    (hf : f.errors = 0 ∧ f.warnings = 0)
+    (hd : distinct (t.columns.map (·.name)) = true) (hc : ∀ c ∈ t.columns, columnOK t.nRows c = true) :
+    finish ext ⟨t.name, t.transposed, t.destinations, t.columns.map (·.name), t.columns.map (·.unit),
+                transposeN (t.columns.map (cellsOf naRep)) t.nRows⟩ f = .ok (expected t, f) := by
+  have hlen : ∀ c ∈ t.columns.map (cellsOf naRep), c.length = t.nRows := by
+    intro c hc'
+    obtain ⟨d, hd', rfl⟩ := List.mem_map.1 hc'
+    simp [cellsOf, (columnOK_facts _ d (hc d hd')).2.2.2.2.1]
+  have hrows : ∀ r ∈ transposeN (t.columns.map (cellsOf naRep)) t.nRows,
+      (t.columns.map (·.name)).length ≤ r.length := by
+    intro r hr
+    simp only [transposeN, List.mem_map, List.mem_range] at hr
+    obtain ⟨i, _, rfl⟩ := hr
+    simp
+  have hfix : (decide (f.fixes > 0) && f.cfg.stopOnErrors) = false := by
+    simp [Fixer.fixes, hf.1, hf.2]
+  unfold finish
+  simp only [fixDuplicates_distinct _ f hd, fixShortRows_full _ _ f hrows]
+  by_cases hm : t.nRows = 0
+  · have hz : transposeN (t.columns.map (cellsOf naRep)) t.nRows = [] := by
+      simp [transposeN, hm]
+    rw [hz]
+    simp only [List.isEmpty_nil, if_true, parseColumns_nil, bind, Except.bind, hfix, Bool.false_eq_true, if_false,
+      pure, Except.pure, expected, hm]
+    simp
+  · have he : (transposeN (t.columns.map (cellsOf naRep)) t.nRows).isEmpty = false := by
+      cases hh : transposeN (t.columns.map (cellsOf naRep)) t.nRows with
+      | nil => have := transposeN_length (t.columns.map (cellsOf naRep)) t.nRows; rw [hh] at this; simp at this; omega
+      | cons _ _ => rfl
+    have hT := transposeN_transposeN (t.columns.map (cellsOf naRep)) t.nRows hlen
+    simp only [List.length_map] at hT
+    have hP := parseColumns_wf ext naRep hna t.columns f (fun c hc' => (columnOK_facts _ c (hc c hc')).2.2.2.2.2)
+    simp only [he, Bool.false_eq_true, if_false, List.length_map, hT, hP, bind, Except.bind, hfix,
+      pure, Except.pure, expected, hm]
+    simp
+
+theorem dtHomogeneous_of_naive (xs : List Str) (h : ∀ x ∈ xs, x ≠ NaT → tzOf x = []) : dtHomogeneous xs = true := by
+  unfold dtHomogeneous
+  have hall : ∀ z ∈ (xs.filter (· != NaT)).map tzOf, z = [] := by
+    intro z hz
+    obtain ⟨x, hx, rfl⟩ := List.mem_map.1 hz
+    simp only [List.mem_filter, bne_iff_ne, ne_eq] at hx
+    exact h x hx.1 hx.2
+  cases hl : (xs.filter (· != NaT)).map tzOf with
+  | nil => rfl
+  | cons z zs =>
+    rw [hl] at hall
+    simp only [List.all_eq_true, beq_iff_eq]
+    intro y hy
+    rw [hall y (List.mem_cons_of_mem _ hy), hall z (by simp)]
+
+theorem colVals_dt_ok (c : Column) (h : ∀ v ∈ c.values, valOK c.unit v = true) :
+    (colVals c).dtInhomogeneous = false := by
+  unfold colVals ColVals.dtInhomogeneous
+  by_cases h1 : c.unit = uText
+  · rw [if_pos h1]
+  · rw [if_neg h1]
+    by_cases h2 : c.unit = uOnoff
+    · rw [if_pos h2]
+    · rw [if_neg h2]
+      by_cases h3 : c.unit = uDatetime
+      · rw [if_pos h3]
+        simp only [Bool.not_eq_false']
+        apply dtHomogeneous_of_naive
+        intro x hx hne
+        obtain ⟨v, hv, rfl⟩ := List.mem_map.1 hx
+        have := h v hv
+        rw [h3] at this
+        cases v with
+        | dt t =>
+          simp only [valOK, Bool.and_eq_true, Bool.or_eq_true, beq_iff_eq, dtRepresentable, decide_eq_true_eq] at this
+          rcases this.2 with e | e
+          · exact absurd e hne
+          · exact e.1.1.2
+        | _ => exact absurd rfl hne
+      · rw [if_neg h3]
+
+/-- the DataFrame construction on top of a well-formed precursor accepts it -/
+theorem makeTable_of_precursor (ext : Ext) (cells : List Row) (f : Fixer) (t : TableVal)
+    (hc : ∀ c ∈ t.columns, columnOK t.nRows c = true)
+    (h : makePrecursor ext cells f = .ok (expected t, f)) :
+    makeTable ext cells f = .ok (expected t, f) := by
+  unfold makeTable
+  simp only [h, bind, Except.bind]
+  by_cases hm : t.nRows = 0
+  · simp only [expected, hm, if_true]
+    cases hcols : t.columns with
+    | nil => rfl
+    | cons c cs =>
+      simp [List.replicate_succ, ColVals.length, pure, Except.pure]
+  · simp only [expected, hm, if_false]
+    cases hcols : t.columns with
+    | nil => rfl
+    | cons c cs =>
+      have hlen : ∀ d ∈ t.columns, (colVals d).length = t.nRows := by
+        intro d hd
+        rw [colVals_length, (columnOK_facts _ d (hc d hd)).2.2.2.2.1]
+      have hdt : ∀ d ∈ t.columns, (colVals d).dtInhomogeneous = false :=
+        fun d hd => colVals_dt_ok d (columnOK_facts _ d (hc d hd)).2.2.2.2.2
+      rw [hcols] at hlen hdt
+      have h1 : (cs.map colVals).all (fun d => decide (d.length = (colVals c).length)) = true := by
+        simp only [List.all_eq_true, List.mem_map, decide_eq_true_eq]
+        rintro _ ⟨d, hd, rfl⟩
+        rw [hlen d (List.mem_cons_of_mem _ hd), hlen c (by simp)]
+      have h2 : ((c :: cs).map colVals).any ColVals.dtInhomogeneous = false := by
+        rw [List.any_eq_false]
+        intro d hd
+        obtain ⟨e, he, rfl⟩ := List.mem_map.1 hd
+        simp [hdt e he]
+      simp only [List.map_cons] at h2 ⊢
+      simp [h1, h2, pure, Except.pure]
+
+/-! ## G. the stored block of one table and its header interpretation -/
+
+/-- the rows of a table that form its block: a table without columns ends after the destinations row
+    (its empty name / unit rows are blank rows) -/
+def tableBlock (naRep : Str) (t : TableVal) : List Row :=
+  if t.columns.isEmpty then [[.str (header t)], [.str (destCell t)]] else layoutTable naRep t
+
+/-- empty rows a table appends after its block, before the separator rows -/
+def trailingBlank (t : TableVal) : Nat := if t.columns.isEmpty && !t.transposed then 2 else 0
+
+theorem layoutTable_split (naRep : Str) (t : TableVal) :
+    layoutTable naRep t = tableBlock naRep t ++ List.replicate (trailingBlank t) [] := by
+  unfold tableBlock trailingBlank layoutTable
+  cases hc : t.columns with
+  | nil =>
+    cases ht : t.transposed
+    · simp [TableVal.nRows, hc, List.replicate_succ]
+    · simp
+  | cons c cs => simp
+
+theorem excelWF_facts (t : TableVal) (h : excelWF t = true) :
+    t.name.head? ≠ some '*' ∧ t.name.getLast? ≠ some '*' ∧ (t.transposed = true → t.name ≠ []) ∧
+    t.destinations ≠ [] ∧ (∀ d ∈ t.destinations, destOK d = true) ∧ distinct t.destinations = true ∧
+    distinct (t.columns.map (·.name)) = true ∧ (∀ c ∈ t.columns, columnOK t.nRows c = true) ∧
+    (t.transposed = true → ∀ c ∈ t.columns, notMarker c.name = true) ∧
+    (t.transposed = false → ∀ c cs, t.columns = c :: cs → firstColumnOK c = true) := by
+  simp only [excelWF, Bool.and_eq_true, Bool.not_eq_true', bne_iff_ne, ne_eq, List.all_eq_true,
+    Bool.or_eq_true] at h
+  obtain ⟨⟨⟨⟨⟨⟨⟨⟨⟨_, h1⟩, h2⟩, h3⟩, h4⟩, h5⟩, h6⟩, h7⟩, h8⟩, h9⟩ := h
+  refine ⟨h1, h2, ?_, ?_, h5, h6, h7, h8, ?_, ?_⟩
+  · intro ht e
+    rcases h3 with h3 | h3
+    · rw [ht] at h3; cases h3
+    · simp [e] at h3
+  · intro e; simp [e] at h4
+  · intro ht; simpa [ht] using h9
+  · intro ht c cs hc
+    simpa [ht, hc] using h9
+
+theorem dropWhile_eq_nil_of_all {α : Type} (p : α → Bool) (l : List α) (h : ∀ x ∈ l, p x = true) :
+    l.dropWhile p = [] := by
+  induction l with
+  | nil => rfl
+  | cons x xs ih =>
+    simp [List.dropWhile_cons, h x (by simp), ih (fun y hy => h y (List.mem_cons_of_mem _ hy))]
+
+theorem header_facts (t : TableVal) :
+    storeCell (.str (header t)) = .str (header t) ∧
+    (header t).drop 2 = t.name ++ (if t.transposed then ['*'] else []) := by
+  refine ⟨storeCell_str _ (by simp [header]) (by simp [header]), rfl⟩
+
+theorem head_joinWith (x : Str) (rest : List Str) (hx : x ≠ []) :
+    (joinWith ' ' (x :: rest)).head? = x.head? := by
+  cases rest with
+  | nil => rfl
+  | cons y ys =>
+    cases x with
+    | nil => exact absurd rfl hx
+    | cons a as => simp [joinWith]
+
+theorem destCell_facts (t : TableVal) (hne : t.destinations ≠ []) (hok : ∀ d ∈ t.destinations, destOK d = true) :
+    storeCell (.str (destCell t)) = .str (destCell t) ∧ plainFirst (.str (destCell t)) = true := by
+  have hf := fun d hd => destOK_facts d (hok d hd)
+  have hne' : destCell t ≠ [] := joinWith_ne_nil _ hne (fun d hd => (hf d hd).1)
+  obtain ⟨x, rest, hxs⟩ : ∃ x rest, t.destinations = x :: rest := by
+    cases hd : t.destinations with
+    | nil => exact absurd hd hne
+    | cons x rest => exact ⟨x, rest, rfl⟩
+  have hx := hf x (by rw [hxs]; simp)
+  have hhead : (destCell t).head? = x.head? := by
+    unfold destCell; rw [hxs]; exact head_joinWith x rest hx.1
+  constructor
+  · exact storeCell_str _ hne' (by rw [hhead]; exact hx.2.2.2.2.2)
+  · -- not blank: the first character is no space; no marker: no leading star, no colon
+    obtain ⟨a, as, hxa⟩ : ∃ a as, x = a :: as := by
+      cases x with
+      | nil => exact absurd rfl hx.1
+      | cons a as => exact ⟨a, as, rfl⟩
+    have ha : isSpace a = false := hx.2.1 a (by rw [hxa]; simp)
+    obtain ⟨r, hr⟩ : ∃ r, destCell t = a :: r := by
+      cases hd : destCell t with
+      | nil => exact absurd hd hne'
+      | cons b r =>
+        rw [hd, hxa] at hhead
+        simp at hhead
+        exact ⟨r, by rw [hhead]⟩
+    have hnb : allSpace (destCell t) = false := by
+      rw [hr]; simp [allSpace, ha]
+    have hstar : a ≠ '*' := by
+      intro e; apply hx.2.2.2.2.1; rw [hxa, e]; rfl
+    have hcolon : ':' ∉ destCell t := by
+      unfold destCell
+      have : ∀ ds : List Str, (∀ d ∈ ds, ':' ∉ d) → ':' ∉ joinWith ' ' ds := by
+        intro ds
+        induction ds with
+        | nil => simp [joinWith]
+        | cons y ys ih =>
+          intro h
+          cases ys with
+          | nil => simpa [joinWith] using h y (by simp)
+          | cons z zs =>
+            simp only [joinWith, List.mem_append, List.mem_cons, not_or]
+            exact ⟨h y (by simp), by decide, ih (fun d hd => h d (List.mem_cons_of_mem _ hd))⟩
+      exact this _ (fun d hd => (hf d hd).2.2.2.1)
+    have hlead : leading '*' (destCell t) = 0 := by rw [hr]; simp [leading, hstar]
+    have hcls : classify (destCell t) = none := by
+      unfold classify classifyColon
+      simp only [hlead]
+      have h1 : isTemplate (destCell t) = false := by
+        unfold isTemplate
+        have : leading ':' (destCell t) = 0 := by
+          rw [hr]
+          have : a ≠ ':' := by intro e; apply hcolon; rw [hr, e]; simp
+          simp [leading, this]
+        simp [this]
+      have h2 : isMetaKey (destCell t) = false := by
+        unfold isMetaKey
+        have : (destCell t).dropWhile (· != ':') = [] := by
+          apply dropWhile_eq_nil_of_all
+          intro c hc
+          simp only [bne_iff_ne, ne_eq]
+          intro e; exact hcolon (e ▸ hc)
+        simp [this]
+      simp [h1, h2]
+    simp [plainFirst, Cell.isBlank, hnb, hcls]
+
+theorem storeRow_single (W : Nat) (s : Str) (h : storeCell (.str s) = .str s) :
+    storeRow W [.str s] = .str s :: List.replicate (W - 1) .none := by
+  simp [storeRow, padTo, h]
+
+/-- a table without columns: the block is the two header rows -/
+theorem layout_block_nocols (naRep : Str) (t : TableVal) (h : excelWF t = true) (W : Nat) (hc : t.columns = []) :
+    layout ((tableBlock naRep t).map (storeRow W)) = .ok ⟨t.name, t.transposed, t.destinations, [], [], []⟩ := by
+  obtain ⟨_, w2, _, w4, w5, w6, _⟩ := excelWF_facts t h
+  obtain ⟨hh1, hh2⟩ := header_facts t
+  obtain ⟨hd1, _⟩ := destCell_facts t w4 w5
+  have hdest : destinations (.str (destCell t)) = t.destinations := destinations_wf _ w4 w5 w6
+  simp only [tableBlock, hc, List.isEmpty_nil, if_true, List.map_cons, List.map_nil,
+    storeRow_single W _ hh1, storeRow_single W _ hd1]
+  unfold layout
+  simp only [C02.name_and_orientation, hh2, bind, Except.bind, pure, Except.pure, List.length_cons, List.length_nil,
+    List.drop_succ_cons, List.drop_zero, List.drop_nil, List.any_nil, Bool.and_false, Bool.false_eq_true, if_false,
+    hdest]
+  cases ht : t.transposed
+  · simp [ht, w2, parseColumnNames, stripOfStr]
+  · simp [ht, List.dropLast_concat, parseColumnNames]
+
+
+theorem map_strip_id (l : List Str) (h : ∀ s ∈ l, strip s = s) : l.map strip = l := by
+  conv => rhs; rw [← List.map_id l]
+  exact List.map_congr_left h
+
+/-- header interpretation of a row-wise grid given explicitly: padded header rows, names, units, value rows -/
+theorem layout_rowwise_explicit (hdr dest : Str) (p1 p2 : Row) (names units : List Str) (rows : List Row) (k : Nat)
+    (hnt : (hdr.drop 2).getLast? ≠ some '*')
+    (hn : ∀ s ∈ names, textOK s = true ∧ strip s = s) (hu : ∀ u ∈ units, strip u = u)
+    (hlen : units.length = names.length) (hrows : ∀ r ∈ rows, r.length = names.length) :
+    layout ((.str hdr :: p1) :: (.str dest :: p2) :: (names.map Cell.str ++ List.replicate k .none) ::
+            (units.map Cell.str ++ List.replicate k .none) :: rows.map (fun r => r ++ List.replicate k .none)) =
+      .ok ⟨hdr.drop 2, false, destinations (.str dest), names, units, rows⟩ := by
+  rw [C02.layout_rowwise _ _ _ _ _ _ _ hnt, parseColumnNames_padded names k hn]
+  have htake : (units.map Cell.str ++ List.replicate k Cell.none).take names.length = units.map Cell.str := by
+    apply List.take_left'; simp [hlen]
+  have hstr : (units.map Cell.str).all Cell.isStr = true := by simp [Cell.isStr]
+  have hstrip : (units.map Cell.str).map stripOfStr = units := by
+    rw [List.map_map]
+    have : (stripOfStr ∘ Cell.str) = strip := by funext s; rfl
+    rw [this, map_strip_id units hu]
+  have hr : (rows.map (fun r => r ++ List.replicate k Cell.none)).map (fun l => l.take names.length) = rows := by
+    rw [List.map_map]
+    conv => rhs; rw [← List.map_id rows]
+    apply List.map_congr_left
+    intro r hr
+    simp only [Function.comp, id]
+    exact List.take_left' (hrows r hr)
+  simp only [htake, hstr, if_true, hstrip, hr]
+
+theorem storeCell_names (cols : List Column) (f : Column → Str) (h : ∀ c ∈ cols, textOK (f c) = true) :
+    (cols.map (fun c => Cell.str (f c))).map storeCell = (cols.map f).map Cell.str := by
+  rw [List.map_map, List.map_map]
+  apply List.map_congr_left
+  intro c hc
+  exact storeCell_textOK _ (h c hc)
+
+theorem storeRow_eq (W : Nat) (r r' : Row) (h : r.map storeCell = r') :
+    storeRow W r = r' ++ List.replicate (W - r'.length) .none := by
+  subst h; simp [storeRow, padTo]
+
+def namesOf (t : TableVal) : List Str := t.columns.map (fun c => c.name)
+def unitsOf (t : TableVal) : List Str := t.columns.map (fun c => c.unit)
+def colsOf (naRep : Str) (t : TableVal) : List Row := t.columns.map (cellsOf naRep)
+
+/-- the stored block of a row-wise table with columns, row by row -/
+theorem storedBlock_rowwise (naRep : Str) (t : TableVal) (h : excelWF t = true) (W : Nat)
+    (hc : t.columns ≠ []) (ht : t.transposed = false) :
+    (tableBlock naRep t).map (storeRow W) =
+      (.str (header t) :: List.replicate (W - 1) .none) :: (.str (destCell t) :: List.replicate (W - 1) .none) ::
+      ((namesOf t).map Cell.str ++ List.replicate (W - t.columns.length) .none) ::
+      ((unitsOf t).map Cell.str ++ List.replicate (W - t.columns.length) .none) ::
+      (transposeN (colsOf naRep t) t.nRows).map (fun r => r ++ List.replicate (W - t.columns.length) .none) := by
+  obtain ⟨_, _, _, w4, w5, _, _, w8, _, _⟩ := excelWF_facts t h
+  obtain ⟨hh1, _⟩ := header_facts t
+  obtain ⟨hd1, _⟩ := destCell_facts t w4 w5
+  have hcf := fun c hc => columnOK_facts t.nRows c (w8 c hc)
+  have hemp : t.columns.isEmpty = false := by cases hcs : t.columns <;> simp_all
+  have hN := storeRow_eq W _ _ (storeCell_names t.columns (fun c => c.name) (fun c hc => (hcf c hc).1))
+  have hU := storeRow_eq W _ _ (storeCell_names t.columns (fun c => c.unit) (fun c hc => (hcf c hc).2.2.1))
+  simp only [List.length_map] at hN hU
+  have hV : ∀ i ∈ List.range t.nRows, storeRow W (reprRow naRep i 0 t.columns) =
+      t.columns.map (fun c => readCell naRep (valAt c i)) ++ List.replicate (W - t.columns.length) .none := by
+    intro i hi
+    have hi' : i < t.nRows := by simpa using hi
+    have := storeRow_eq W _ _ (reprRow_wf naRep i t.columns 0 (fun c hc => by
+      have hl := (hcf c hc).2.2.2.2.1
+      rw [valAt_eq c i (by omega)]
+      exact (hcf c hc).2.2.2.2.2 _ (List.getElem_mem _)))
+    simpa using this
+  unfold tableBlock layoutTable namesOf unitsOf colsOf
+  rw [← rows_eq_transposeN naRep t.columns t.nRows (fun c hc' => (hcf c hc').2.2.2.2.1)]
+  simp only [hemp, Bool.false_eq_true, if_false, ht, List.map_cons,
+    storeRow_single W _ hh1, storeRow_single W _ hd1, hN, hU]
+  congr 4
+  rw [List.map_map, List.map_map]
+  apply List.map_congr_left
+  intro i hi
+  simp only [Function.comp, hV i hi]
+
+theorem transposeN_row_length (cols : List Row) (m : Nat) : ∀ r ∈ transposeN cols m, r.length = cols.length := by
+  intro r hr
+  simp only [transposeN, List.mem_map] at hr
+  obtain ⟨i, _, rfl⟩ := hr
+  simp
+
+/-- a row-wise table with at least one column: header interpretation of the stored block -/
+theorem layout_block_rowwise (naRep : Str) (t : TableVal) (h : excelWF t = true) (W : Nat)
+    (hc : t.columns ≠ []) (ht : t.transposed = false) :
+    layout ((tableBlock naRep t).map (storeRow W)) =
+      .ok ⟨t.name, false, t.destinations, namesOf t, unitsOf t, transposeN (colsOf naRep t) t.nRows⟩ := by
+  obtain ⟨_, w2, _, w4, w5, w6, _, w8, _, _⟩ := excelWF_facts t h
+  obtain ⟨_, hh2⟩ := header_facts t
+  have hcf := fun c hc => columnOK_facts t.nRows c (w8 c hc)
+  rw [storedBlock_rowwise naRep t h W hc ht,
+    layout_rowwise_explicit (header t) (destCell t) _ _ (namesOf t) (unitsOf t) _ _
+      (by rw [hh2, ht]; simpa using w2)
+      (by intro s hs; obtain ⟨c, hc', rfl⟩ := List.mem_map.1 hs; exact ⟨(hcf c hc').1, (hcf c hc').2.1⟩)
+      (by intro s hs; obtain ⟨c, hc', rfl⟩ := List.mem_map.1 hs; exact (hcf c hc').2.2.2.1)
+      (by simp [namesOf, unitsOf])
+      (by intro r hr; rw [transposeN_row_length _ _ r hr]; simp [colsOf, namesOf])]
+  have hdest : destinations (.str (destCell t)) = t.destinations := destinations_wf _ w4 w5 w6
+  rw [hh2, ht, hdest]
+  simp
+
+
+/-! ### transposed tables -/
+
+theorem foldl_max_const (L : List Row) (q : Nat) (hne : L ≠ []) (h : ∀ l ∈ L, l.length = q) (a : Nat) :
+    L.foldl (fun m l => max m l.length) a = max a q := by
+  induction L generalizing a with
+  | nil => exact absurd rfl hne
+  | cons l ls ih =>
+    simp only [List.foldl_cons, h l (by simp)]
+    cases ls with
+    | nil => simp
+    | cons l' ls' =>
+      rw [ih (by simp) (fun x hx => h x (List.mem_cons_of_mem _ hx))]
+      omega
+
+theorem nRowLoop_stops (L : List Row) (m longest : Nat) (hl : m ≤ longest)
+    (h1 : ∀ i, i < m → L.any (fun l => decide (i < l.length) && !(getD0 l i).isBlank) = true)
+    (h2 : L.any (fun l => decide (m < l.length) && !(getD0 l m).isBlank) = false) :
+    ∀ fuel i, i ≤ m → m - i ≤ fuel → nRowLoop L longest i fuel = m := by
+  intro fuel
+  induction fuel with
+  | zero =>
+    intro i hi hf
+    have : i = m := by omega
+    simp [nRowLoop, this]
+  | succ n ih =>
+    intro i hi hf
+    unfold nRowLoop
+    by_cases hlt : i < m
+    · have hc : (decide (i < longest) && L.any (fun l => decide (i < l.length) && !(getD0 l i).isBlank)) = true := by
+        rw [h1 i hlt]; simp; omega
+      rw [if_pos hc]
+      exact ih (i + 1) (by omega) (by omega)
+    · have : i = m := by omega
+      subst this
+      have hc : ¬ ((decide (i < longest) && L.any (fun l => decide (i < l.length) && !(getD0 l i).isBlank)) = true) := by
+        rw [h2]; simp
+      rw [if_neg hc]
+
+theorem getD0_append_left (a b : Row) (i : Nat) (h : i < a.length) : getD0 (a ++ b) i = a[i] := by
+  simp [getD0, List.getD_eq_getElem?_getD, List.getElem?_append_left h, h]
+
+theorem getD0_pad (a : Row) (k : Nat) (i : Nat) (h : a.length ≤ i) :
+    getD0 (a ++ List.replicate k .none) i = .none := by
+  simp only [getD0, List.getD_eq_getElem?_getD, List.getElem?_append_right h]
+  cases hg : (List.replicate k Cell.none)[i - a.length]? with
+  | none => rfl
+  | some x =>
+    have := List.mem_of_getElem? hg
+    simp at this
+    simp [this.2]
+
+/-- `zip(*lines)` of the value parts of transposed lines: the padding is trimmed, the columns come back as rows -/
+theorem transposedRows_padded (cols : List Row) (m k : Nat) (hne : cols ≠ []) (hlen : ∀ c ∈ cols, c.length = m)
+    (hnb : ∀ c ∈ cols, ∀ x ∈ c, x.isBlank = false) :
+    transposedRows (cols.map (fun c => c ++ List.replicate k .none)) = .ok (transposeN cols m) := by
+  obtain ⟨c0, cs, hcs⟩ : ∃ c0 cs, cols = c0 :: cs := by
+    cases cols with
+    | nil => exact absurd rfl hne
+    | cons c0 cs => exact ⟨c0, cs, rfl⟩
+  have hL : ∀ l ∈ cols.map (fun c => c ++ List.replicate k Cell.none), l.length = m + k := by
+    intro l hl
+    obtain ⟨c, hc, rfl⟩ := List.mem_map.1 hl
+    simp [hlen c hc]
+  have hlong : (cols.map (fun c => c ++ List.replicate k Cell.none)).foldl (fun m l => max m l.length) 0 = m + k := by
+    rw [foldl_max_const _ (m + k) (by simp [hne]) hL 0]; omega
+  have h1 : ∀ i, i < m → (cols.map (fun c => c ++ List.replicate k Cell.none)).any
+      (fun l => decide (i < l.length) && !(getD0 l i).isBlank) = true := by
+    intro i hi
+    rw [List.any_eq_true]
+    refine ⟨c0 ++ List.replicate k Cell.none, by rw [hcs]; simp, ?_⟩
+    have hc0 : c0.length = m := hlen c0 (by rw [hcs]; simp)
+    have hi' : i < c0.length := by omega
+    rw [getD0_append_left c0 _ i hi', hnb c0 (by rw [hcs]; simp) _ (List.getElem_mem _)]
+    simp; omega
+  have h2 : (cols.map (fun c => c ++ List.replicate k Cell.none)).any
+      (fun l => decide (m < l.length) && !(getD0 l m).isBlank) = false := by
+    rw [List.any_eq_false]
+    intro l hl
+    obtain ⟨c, hc, rfl⟩ := List.mem_map.1 hl
+    rw [getD0_pad c k m (by rw [hlen c hc]; exact Nat.le_refl _)]
+    simp [Cell.isBlank]
+  have hn := nRowLoop_stops _ m (m + k) (by omega) h1 h2 (m + k) 0 (by omega) (by omega)
+  have hpad : (cols.map (fun c => c ++ List.replicate k Cell.none)).map (padOrTrim m) = cols := by
+    rw [List.map_map]
+    conv => rhs; rw [← List.map_id cols]
+    apply List.map_congr_left
+    intro c hc
+    simp only [Function.comp, padOrTrim, id]
+    have : (c ++ List.replicate k Cell.none).length ≥ m := by simp [hlen c hc]
+    rw [if_pos this]
+    exact List.take_left' (hlen c hc)
+  unfold transposedRows
+  rw [hlong]
+  simp only [hn, hpad]
+  rw [hcs]
+  rfl
+
+/-- header interpretation of a transposed grid given explicitly by its lines `(name, unit, value cells)` -/
+theorem layout_transposed_explicit (hdr dest : Str) (p1 p2 : Row) (trip : List (Str × Str × Row)) (m k : Nat)
+    (ht : (hdr.drop 2).getLast? = some '*') (hne : trip ≠ [])
+    (hn : ∀ x ∈ trip, textOK x.1 = true ∧ strip x.1 = x.1) (hu : ∀ x ∈ trip, strip x.2.1 = x.2.1)
+    (hlen : ∀ x ∈ trip, x.2.2.length = m) (hnb : ∀ x ∈ trip, ∀ c ∈ x.2.2, c.isBlank = false) :
+    layout ((.str hdr :: p1) :: (.str dest :: p2) ::
+        trip.map (fun x => Cell.str x.1 :: Cell.str x.2.1 :: (x.2.2 ++ List.replicate k .none))) =
+      .ok ⟨(hdr.drop 2).dropLast, true, destinations (.str dest), trip.map (fun x => x.1), trip.map (fun x => x.2.1),
+           transposeN (trip.map (fun x => x.2.2)) m⟩ := by
+  obtain ⟨x0, xs, hx⟩ : ∃ x0 xs, trip = x0 :: xs := by
+    cases trip with
+    | nil => exact absurd rfl hne
+    | cons x0 xs => exact ⟨x0, xs, rfl⟩
+  have hshape : trip.map (fun x => Cell.str x.1 :: Cell.str x.2.1 :: (x.2.2 ++ List.replicate k Cell.none)) =
+      (Cell.str x0.1 :: Cell.str x0.2.1 :: (x0.2.2 ++ List.replicate k Cell.none)) ::
+        xs.map (fun x => Cell.str x.1 :: Cell.str x.2.1 :: (x.2.2 ++ List.replicate k Cell.none)) := by
+    rw [hx]; rfl
+  rw [hshape, C02.layout_transposed _ _ _ _ _ _ ht, ← hshape]
+  have hany : (trip.map (fun x => Cell.str x.1 :: Cell.str x.2.1 :: (x.2.2 ++ List.replicate k Cell.none))).any
+      (fun l => decide (l.length < 2)) = false := by
+    rw [List.any_eq_false]
+    intro l hl
+    obtain ⟨x, _, rfl⟩ := List.mem_map.1 hl
+    simp
+  have hnames : (trip.map (fun x => Cell.str x.1 :: Cell.str x.2.1 :: (x.2.2 ++ List.replicate k Cell.none))).map
+      (fun l => getD0 l 0) = (trip.map (fun x => x.1)).map Cell.str := by
+    rw [List.map_map, List.map_map]; rfl
+  have hpn : parseColumnNames ((trip.map (fun x => x.1)).map Cell.str) = .ok (trip.map (fun x => x.1)) := by
+    have := parseColumnNames_padded (trip.map (fun x => x.1)) 0 (by
+      intro s hs; obtain ⟨x, hx', rfl⟩ := List.mem_map.1 hs; exact hn x hx')
+    simpa using this
+  have htake : (trip.map (fun x => Cell.str x.1 :: Cell.str x.2.1 :: (x.2.2 ++ List.replicate k Cell.none))).take
+      (trip.map (fun x => x.1)).length =
+      trip.map (fun x => Cell.str x.1 :: Cell.str x.2.1 :: (x.2.2 ++ List.replicate k Cell.none)) := by
+    apply List.take_of_length_le; simp
+  have hunits : (trip.map (fun x => Cell.str x.1 :: Cell.str x.2.1 :: (x.2.2 ++ List.replicate k Cell.none))).map
+      (fun l => getD0 l 1) = (trip.map (fun x => x.2.1)).map Cell.str := by
+    rw [List.map_map, List.map_map]; rfl
+  have hstr : ((trip.map (fun x => x.2.1)).map Cell.str).all Cell.isStr = true := by simp [Cell.isStr]
+  have hstrip : ((trip.map (fun x => x.2.1)).map Cell.str).map stripOfStr = trip.map (fun x => x.2.1) := by
+    rw [List.map_map]
+    have : (stripOfStr ∘ Cell.str) = strip := by funext s; rfl
+    rw [this, map_strip_id]
+    intro s hs; obtain ⟨x, hx', rfl⟩ := List.mem_map.1 hs; exact hu x hx'
+  have hdrop : (trip.map (fun x => Cell.str x.1 :: Cell.str x.2.1 :: (x.2.2 ++ List.replicate k Cell.none))).map
+      (fun l => l.drop 2) = (trip.map (fun x => x.2.2)).map (fun c => c ++ List.replicate k Cell.none) := by
+    rw [List.map_map, List.map_map]; rfl
+  have hrows := transposedRows_padded (trip.map (fun x => x.2.2)) m k (by simp [hne])
+    (by intro c hc; obtain ⟨x, hx', rfl⟩ := List.mem_map.1 hc; exact hlen x hx')
+    (by intro c hc; obtain ⟨x, hx', rfl⟩ := List.mem_map.1 hc; exact hnb x hx')
+  simp only [hany, Bool.false_eq_true, if_false, hnames, hpn, htake, hunits, hstr, if_true, hstrip, hdrop, hrows]
+
+
+def tripOf (naRep : Str) (t : TableVal) : List (Str × Str × Row) :=
+  t.columns.map (fun c => (c.name, c.unit, cellsOf naRep c))
+
+/-- the stored block of a transposed table with columns, line by line -/
+theorem storedBlock_transposed (naRep : Str) (t : TableVal) (h : excelWF t = true) (W : Nat)
+    (hc : t.columns ≠ []) (ht : t.transposed = true) :
+    (tableBlock naRep t).map (storeRow W) =
+      (.str (header t) :: List.replicate (W - 1) .none) :: (.str (destCell t) :: List.replicate (W - 1) .none) ::
+      (tripOf naRep t).map (fun x => Cell.str x.1 :: Cell.str x.2.1 ::
+        (x.2.2 ++ List.replicate (W - (t.nRows + 2)) .none)) := by
+  obtain ⟨_, _, _, w4, w5, _, _, w8, _, _⟩ := excelWF_facts t h
+  obtain ⟨hh1, _⟩ := header_facts t
+  obtain ⟨hd1, _⟩ := destCell_facts t w4 w5
+  have hcf := fun c hc => columnOK_facts t.nRows c (w8 c hc)
+  have hemp : t.columns.isEmpty = false := by cases hcs : t.columns <;> simp_all
+  unfold tableBlock layoutTable tripOf
+  simp only [hemp, Bool.false_eq_true, if_false, ht, if_true, List.map_cons,
+    storeRow_single W _ hh1, storeRow_single W _ hd1]
+  congr 2
+  rw [List.map_map, List.map_map]
+  apply List.map_congr_left
+  intro c hc'
+  obtain ⟨c1, _, c3, _, c5, c6⟩ := hcf c hc'
+  have := storeRow_eq W (Cell.str c.name :: Cell.str c.unit :: reprCol naRep c.unit 0 c.values)
+    (Cell.str c.name :: Cell.str c.unit :: cellsOf naRep c) (by
+      simp only [List.map_cons, storeCell_textOK _ c1, storeCell_textOK _ c3]
+      rw [reprCol_wf naRep c.unit c.values 0 c6]; rfl)
+  simp only [Function.comp, this, List.length_cons, cellsOf, List.length_map, c5, List.cons_append]
+
+theorem layout_block_transposed (naRep : Str) (t : TableVal) (h : excelWF t = true) (hna : naRepOK naRep = true)
+    (W : Nat) (hc : t.columns ≠ []) (ht : t.transposed = true) :
+    layout ((tableBlock naRep t).map (storeRow W)) =
+      .ok ⟨t.name, true, t.destinations, namesOf t, unitsOf t, transposeN (colsOf naRep t) t.nRows⟩ := by
+  obtain ⟨_, w2, _, w4, w5, w6, _, w8, _, _⟩ := excelWF_facts t h
+  obtain ⟨_, hh2⟩ := header_facts t
+  have hcf := fun c hc => columnOK_facts t.nRows c (w8 c hc)
+  have hdest : destinations (.str (destCell t)) = t.destinations := destinations_wf _ w4 w5 w6
+  have hlast : ((header t).drop 2).getLast? = some '*' := by rw [hh2, ht]; simp
+  rw [storedBlock_transposed naRep t h W hc ht,
+    layout_transposed_explicit (header t) (destCell t) _ _ (tripOf naRep t) t.nRows _ hlast
+      (by simp [tripOf, hc])
+      (by intro x hx; obtain ⟨c, hc', rfl⟩ := List.mem_map.1 hx; exact ⟨(hcf c hc').1, (hcf c hc').2.1⟩)
+      (by intro x hx; obtain ⟨c, hc', rfl⟩ := List.mem_map.1 hx; exact (hcf c hc').2.2.2.1)
+      (by intro x hx; obtain ⟨c, hc', rfl⟩ := List.mem_map.1 hx; simp [cellsOf, (hcf c hc').2.2.2.2.1])
+      (by
+        intro x hx; obtain ⟨c, hc', rfl⟩ := List.mem_map.1 hx
+        intro cell hcell
+        obtain ⟨v, hv, rfl⟩ := List.mem_map.1 hcell
+        exact readCell_not_blank naRep hna c.unit v ((hcf c hc').2.2.2.2.2 v hv))]
+  rw [hh2, ht, hdest]
+  have e1 : (tripOf naRep t).map (fun x => x.1) = namesOf t := by simp [tripOf, namesOf, List.map_map, Function.comp]
+  have e2 : (tripOf naRep t).map (fun x => x.2.1) = unitsOf t := by simp [tripOf, unitsOf, List.map_map, Function.comp]
+  have e3 : (tripOf naRep t).map (fun x => x.2.2) = colsOf naRep t := by
+    simp only [tripOf, colsOf, List.map_map]; rfl
+  rw [e1, e2, e3]
+  simp
+
+/-- **one table**: the reader's table constructor on the stored block of a well-formed table gives the table
+    back and leaves the fixer untouched -/
+theorem makeTable_block (ext : Ext) (naRep : Str) (hna : naRepOK naRep = true) (t : TableVal)
+    (h : excelWF t = true) (W : Nat) (f : Fixer) (hf : f.errors = 0 ∧ f.warnings = 0) :
+    makeTable ext ((tableBlock naRep t).map (storeRow W)) f = .ok (expected t, f) := by
+  obtain ⟨_, _, _, _, _, _, w7, w8, _, _⟩ := excelWF_facts t h
+  apply makeTable_of_precursor ext _ f t w8
+  have hfin := finish_wf ext naRep hna t f hf w7 w8
+  unfold makePrecursor
+  by_cases hc : t.columns = []
+  · rw [layout_block_nocols naRep t h W hc]
+    have hn : t.nRows = 0 := by simp [TableVal.nRows, hc]
+    simp only [hc, hn, List.map_nil, transposeN, List.range_zero] at hfin
+    simpa [bind, Except.bind] using hfin
+  · cases ht : t.transposed
+    · rw [layout_block_rowwise naRep t h W hc ht]
+      rw [ht] at hfin
+      simpa [bind, Except.bind, namesOf, unitsOf, colsOf] using hfin
+    · rw [layout_block_transposed naRep t h hna W hc ht]
+      rw [ht] at hfin
+      simpa [bind, Except.bind, namesOf, unitsOf, colsOf] using hfin
 
 end Pdt.Grid
